@@ -54,7 +54,9 @@ impl Prop for C06 {
         c
     }
     fn execute(&self, case: &WriterCase, st: &mut RunStats) -> Outcome<WriterCase> {
-        run_points(case, st, true, false)
+        // points are compared as well: what a failed add_blob leaves behind must not disturb the
+        // point clouds added afterwards
+        run_points(case, st, true, true)
     }
     fn shrink(&self, case: &WriterCase) -> Vec<WriterCase> {
         shrink_writer_case(case)
